@@ -10,6 +10,9 @@
 //         | 'W' node* '<'                     <Wrap>…</Wrap>
 //         | 'M' hex ';'                       <!-- "…" -->
 //         | 'Y'                               <!DOCTYPE html>   (only as the first root node)
+//         | 'V' digit                         a block of unit type: 0 {()} 1 {} 2 {let _ = 1;} 3 {None::<String>} 4 {Vec::<String>::new()}
+//         | 'Q' bit attr* '>' node* '<'       a component with spread attributes: <Wrap …> (0) / <Card …> (1); the attr forms
+//                                             are written attr:name=… / attr:class=… / attr:style=… / class:n=… / style:n=…
 //   attr := 'A' d hex ';' hex ';'             name="v" (d=0) / name={v} (d=1)
 //         | 'G' hex ';'                       name            (no value)
 //         | 'b' hex ';' bit                   name={bool}
@@ -56,6 +59,10 @@ pub enum Tmpl {
     Comp(Vec<Tmpl>),
     Comment(String),
     Doctype,
+    /// a `{block}` whose value renders as the unit view (see the encoding for the five source forms)
+    Unit(u8),
+    /// `<Wrap attrs…>` (false) / `<Card attrs…>` (true) with `attr:` / `class:` / `style:` attributes
+    CompA(bool, Vec<TAttr>, Vec<Tmpl>),
 }
 
 pub fn hx(s: &str) -> String {
@@ -87,20 +94,7 @@ fn enc(nodes: &[Tmpl], o: &mut String) {
             Tmpl::Block(s) => o.push_str(&format!("B{};", hx(s))),
             Tmpl::Elem(tag, attrs, kids) => {
                 o.push_str(&format!("E{};", tag));
-                for a in attrs {
-                    match a {
-                        TAttr::Plain(d, n, v) => o.push_str(&format!("A{}{};{};", *d as u8, hx(n), hx(v))),
-                        TAttr::Flag(n) => o.push_str(&format!("G{};", hx(n))),
-                        TAttr::BoolDyn(n, b) => o.push_str(&format!("b{};{}", hx(n), *b as u8)),
-                        TAttr::Cls(d, v) => o.push_str(&format!("C{}{};", *d as u8, hx(v))),
-                        TAttr::Style(d, v) => o.push_str(&format!("S{}{};", *d as u8, hx(v))),
-                        TAttr::ClsToggle(n, b) => o.push_str(&format!("D{};{}", hx(n), *b as u8)),
-                        TAttr::ClsTuple(n, b) => o.push_str(&format!("U{};{}", hx(n), *b as u8)),
-                        TAttr::StyleKV(d, n, v) => o.push_str(&format!("K{}{};{};", *d as u8, hx(n), hx(v))),
-                        TAttr::LitBool(n, b) => o.push_str(&format!("L{};{}", hx(n), *b as u8)),
-                        TAttr::LitVal(n, v) => o.push_str(&format!("N{};{};", hx(n), hx(v))),
-                    }
-                }
+                enc_attrs(attrs, o);
                 o.push('>');
                 enc(kids, o);
                 o.push('<');
@@ -117,6 +111,31 @@ fn enc(nodes: &[Tmpl], o: &mut String) {
             }
             Tmpl::Comment(c) => o.push_str(&format!("M{};", hx(c))),
             Tmpl::Doctype => o.push('Y'),
+            Tmpl::Unit(k) => o.push_str(&format!("V{}", k)),
+            Tmpl::CompA(card, attrs, kids) => {
+                o.push_str(&format!("Q{}", *card as u8));
+                enc_attrs(attrs, o);
+                o.push('>');
+                enc(kids, o);
+                o.push('<');
+            }
+        }
+    }
+}
+
+fn enc_attrs(attrs: &[TAttr], o: &mut String) {
+    for a in attrs {
+        match a {
+            TAttr::Plain(d, n, v) => o.push_str(&format!("A{}{};{};", *d as u8, hx(n), hx(v))),
+            TAttr::Flag(n) => o.push_str(&format!("G{};", hx(n))),
+            TAttr::BoolDyn(n, b) => o.push_str(&format!("b{};{}", hx(n), *b as u8)),
+            TAttr::Cls(d, v) => o.push_str(&format!("C{}{};", *d as u8, hx(v))),
+            TAttr::Style(d, v) => o.push_str(&format!("S{}{};", *d as u8, hx(v))),
+            TAttr::ClsToggle(n, b) => o.push_str(&format!("D{};{}", hx(n), *b as u8)),
+            TAttr::ClsTuple(n, b) => o.push_str(&format!("U{};{}", hx(n), *b as u8)),
+            TAttr::StyleKV(d, n, v) => o.push_str(&format!("K{}{};{};", *d as u8, hx(n), hx(v))),
+            TAttr::LitBool(n, b) => o.push_str(&format!("L{};{}", hx(n), *b as u8)),
+            TAttr::LitVal(n, v) => o.push_str(&format!("N{};{};", hx(n), hx(v))),
         }
     }
 }
@@ -192,8 +211,35 @@ impl<'a> Dec<'a> {
                     {
                         return None;
                     }
-                    let mut attrs = vec![];
-                    loop {
+                    let attrs = self.attrs()?;
+                    let kids = self.nodes(false)?;
+                    out.push(Tmpl::Elem(tag, attrs, kids));
+                }
+                Some(b'V') => {
+                    let k = *self.s.get(self.i + 1)?;
+                    if !(b'0'..=b'4').contains(&k) {
+                        return None;
+                    }
+                    self.i += 2;
+                    out.push(Tmpl::Unit(k - b'0'));
+                }
+                Some(b'Q') => {
+                    self.i += 1;
+                    let card = self.bit()?;
+                    let attrs = self.attrs()?;
+                    let kids = self.nodes(false)?;
+                    out.push(Tmpl::CompA(card, attrs, kids));
+                }
+                _ => return None,
+            }
+        }
+    }
+    fn attrs(&mut self) -> Option<Vec<TAttr>> {
+        let mut attrs = vec![];
+        loop {
+            {
+                {
+                    {
                         let k = *self.s.get(self.i)?;
                         self.i += 1;
                         attrs.push(match k {
@@ -211,12 +257,10 @@ impl<'a> Dec<'a> {
                             _ => return None,
                         });
                     }
-                    let kids = self.nodes(false)?;
-                    out.push(Tmpl::Elem(tag, attrs, kids));
                 }
-                _ => return None,
             }
         }
+        Some(attrs)
     }
 }
 
@@ -250,24 +294,32 @@ pub fn is_raw_tag(t: &str) -> bool {
     matches!(t, "script" | "style" | "textarea" | "noscript")
 }
 
+fn walk_attr_holes(attrs: &mut [TAttr], f: &mut dyn FnMut(HoleKind, &mut String), g: &mut dyn FnMut(&mut bool)) {
+    for a in attrs.iter_mut() {
+        match a {
+            TAttr::Plain(true, _, v) => f(HoleKind::Attr, v),
+            TAttr::BoolDyn(_, b) => g(b),
+            TAttr::Cls(true, v) => f(HoleKind::Class, v),
+            TAttr::Style(true, v) => f(HoleKind::Style, v),
+            TAttr::ClsToggle(_, b) => g(b),
+            TAttr::ClsTuple(_, b) => g(b),
+            TAttr::StyleKV(true, _, v) => f(HoleKind::Style, v),
+            _ => {}
+        }
+    }
+}
+
 fn walk_holes(nodes: &mut [Tmpl], raw: bool, f: &mut dyn FnMut(HoleKind, &mut String), g: &mut dyn FnMut(&mut bool)) {
     for n in nodes.iter_mut() {
         match n {
-            Tmpl::Text(..) | Tmpl::Comment(_) | Tmpl::Doctype => {}
+            Tmpl::Text(..) | Tmpl::Comment(_) | Tmpl::Doctype | Tmpl::Unit(_) => {}
+            Tmpl::CompA(_, attrs, kids) => {
+                walk_attr_holes(attrs, f, g);
+                walk_holes(kids, false, f, g);
+            }
             Tmpl::Block(s) => f(if raw { HoleKind::RawText } else { HoleKind::Text }, s),
             Tmpl::Elem(tag, attrs, kids) => {
-                for a in attrs.iter_mut() {
-                    match a {
-                        TAttr::Plain(true, _, v) => f(HoleKind::Attr, v),
-                        TAttr::BoolDyn(_, b) => g(b),
-                        TAttr::Cls(true, v) => f(HoleKind::Class, v),
-                        TAttr::Style(true, v) => f(HoleKind::Style, v),
-                        TAttr::ClsToggle(_, b) => g(b),
-                        TAttr::ClsTuple(_, b) => g(b),
-                        TAttr::StyleKV(true, _, v) => f(HoleKind::Style, v),
-                        _ => {}
-                    }
-                }
+                walk_attr_holes(attrs, f, g);
                 // the text of <textarea> is escaped (and read back through character references): any string goes
                 let r = is_raw_tag(tag) && tag != "textarea";
                 walk_holes(kids, r, f, g);
@@ -324,8 +376,8 @@ fn strip_flags(nodes: &mut [Tmpl]) {
     for n in nodes.iter_mut() {
         match n {
             Tmpl::Text(_, u) => *u = false,
-            Tmpl::Block(_) | Tmpl::Comment(_) | Tmpl::Doctype => {}
-            Tmpl::Elem(_, _, k) | Tmpl::Frag(k) | Tmpl::Comp(k) => strip_flags(k),
+            Tmpl::Block(_) | Tmpl::Comment(_) | Tmpl::Doctype | Tmpl::Unit(_) => {}
+            Tmpl::Elem(_, _, k) | Tmpl::Frag(k) | Tmpl::Comp(k) | Tmpl::CompA(_, _, k) => strip_flags(k),
         }
     }
 }
@@ -343,27 +395,29 @@ pub fn dynamize(nodes: &[Tmpl]) -> Vec<Tmpl> {
         .map(|n| match n {
             Tmpl::Text(s, _) => Tmpl::Block(s.clone()),
             Tmpl::Block(s) => Tmpl::Block(s.clone()),
-            Tmpl::Elem(tag, attrs, kids) => Tmpl::Elem(
-                tag.clone(),
-                attrs
-                    .iter()
-                    .map(|a| match a {
-                        TAttr::Plain(_, n, v) => TAttr::Plain(true, n.clone(), v.clone()),
-                        TAttr::Flag(n) => TAttr::BoolDyn(n.clone(), true),
-                        TAttr::Cls(_, v) => TAttr::Cls(true, v.clone()),
-                        TAttr::Style(_, v) => TAttr::Style(true, v.clone()),
-                        TAttr::StyleKV(_, n, v) => TAttr::StyleKV(true, n.clone(), v.clone()),
-                        TAttr::LitBool(n, b) => TAttr::BoolDyn(n.clone(), *b),
-                        TAttr::LitVal(n, v) => TAttr::Plain(true, n.clone(), lit_rendered(v)),
-                        a => a.clone(),
-                    })
-                    .collect(),
-                dynamize(kids),
-            ),
+            Tmpl::Unit(k) => Tmpl::Unit(*k),
+            Tmpl::CompA(card, attrs, kids) => Tmpl::CompA(*card, dyn_attrs(attrs), dynamize(kids)),
+            Tmpl::Elem(tag, attrs, kids) => Tmpl::Elem(tag.clone(), dyn_attrs(attrs), dynamize(kids)),
             Tmpl::Frag(k) => Tmpl::Frag(dynamize(k)),
             Tmpl::Comp(k) => Tmpl::Comp(dynamize(k)),
             Tmpl::Comment(c) => Tmpl::Comment(c.clone()),
             Tmpl::Doctype => Tmpl::Doctype,
+        })
+        .collect()
+}
+
+fn dyn_attrs(attrs: &[TAttr]) -> Vec<TAttr> {
+    attrs
+        .iter()
+        .map(|a| match a {
+            TAttr::Plain(_, n, v) => TAttr::Plain(true, n.clone(), v.clone()),
+            TAttr::Flag(n) => TAttr::BoolDyn(n.clone(), true),
+            TAttr::Cls(_, v) => TAttr::Cls(true, v.clone()),
+            TAttr::Style(_, v) => TAttr::Style(true, v.clone()),
+            TAttr::StyleKV(_, n, v) => TAttr::StyleKV(true, n.clone(), v.clone()),
+            TAttr::LitBool(n, b) => TAttr::BoolDyn(n.clone(), *b),
+            TAttr::LitVal(n, v) => TAttr::Plain(true, n.clone(), lit_rendered(v)),
+            a => a.clone(),
         })
         .collect()
 }
@@ -394,6 +448,13 @@ pub fn eligible_sites(nodes: &[Tmpl]) -> Vec<usize> {
                     *next += 1;
                     go(kids, next, out);
                 }
+                // <Card> renders two nested elements; the children sit in the inner one
+                Tmpl::CompA(card, _, kids) => {
+                    *next += *card as usize;
+                    out.push(*next);
+                    *next += 1;
+                    go(kids, next, out);
+                }
                 Tmpl::Frag(kids) => go(kids, next, out),
                 _ => {}
             }
@@ -409,8 +470,12 @@ pub fn eligible_sites(nodes: &[Tmpl]) -> Vec<usize> {
 pub fn add_extra(nodes: &[Tmpl], site: Option<usize>, value: &str) -> Vec<Tmpl> {
     fn go(nodes: &mut Vec<Tmpl>, next: &mut usize, site: usize, value: &str) {
         for n in nodes.iter_mut() {
+            let is_card = matches!(n, Tmpl::CompA(true, ..));
             match n {
-                Tmpl::Elem(_, _, kids) | Tmpl::Comp(kids) => {
+                Tmpl::Elem(_, _, kids) | Tmpl::Comp(kids) | Tmpl::CompA(_, _, kids) => {
+                    if is_card {
+                        *next += 1;
+                    }
                     let me = *next;
                     *next += 1;
                     go(kids, next, site, value);
@@ -542,6 +607,50 @@ impl Src {
                     self.o.push_str("<Wrap>");
                     self.nodes(kids);
                     self.o.push_str("</Wrap>");
+                }
+                Tmpl::Unit(k) => self.o.push_str(["{()}", "{}", "{let _ = 1;}", "{None::<String>}", "{Vec::<String>::new()}"][*k as usize % 5]),
+                Tmpl::CompA(card, attrs, kids) => {
+                    let name = if *card { "Card" } else { "Wrap" };
+                    self.o.push_str(&format!("<{}", name));
+                    for a in attrs {
+                        self.o.push(' ');
+                        match a {
+                            TAttr::Plain(false, n, v) => self.o.push_str(&format!("attr:{}={:?}", n, v)),
+                            TAttr::Plain(true, n, _) => {
+                                let h = self.s();
+                                self.o.push_str(&format!("attr:{}={}", n, h));
+                            }
+                            TAttr::Flag(n) => self.o.push_str(&format!("attr:{}", n)),
+                            TAttr::BoolDyn(n, _) => {
+                                let h = self.b();
+                                self.o.push_str(&format!("attr:{}={{{}}}", n, h));
+                            }
+                            TAttr::Cls(false, v) => self.o.push_str(&format!("attr:class={:?}", v)),
+                            TAttr::Cls(true, _) => {
+                                let h = self.s();
+                                self.o.push_str(&format!("attr:class={}", h));
+                            }
+                            TAttr::Style(false, v) => self.o.push_str(&format!("attr:style={:?}", v)),
+                            TAttr::Style(true, _) => {
+                                let h = self.s();
+                                self.o.push_str(&format!("attr:style={}", h));
+                            }
+                            TAttr::ClsToggle(n, _) | TAttr::ClsTuple(n, _) => {
+                                let h = self.b();
+                                self.o.push_str(&format!("class:{}={{{}}}", n, h));
+                            }
+                            TAttr::StyleKV(false, n, v) => self.o.push_str(&format!("style:{}={:?}", n, v)),
+                            TAttr::StyleKV(true, n, _) => {
+                                let h = self.s();
+                                self.o.push_str(&format!("style:{}={}", n, h));
+                            }
+                            TAttr::LitBool(n, b) => self.o.push_str(&format!("attr:{}={}", n, b)),
+                            TAttr::LitVal(n, v) => self.o.push_str(&format!("attr:{}={}", n, v)),
+                        }
+                    }
+                    self.o.push('>');
+                    self.nodes(kids);
+                    self.o.push_str(&format!("</{}>", name));
                 }
                 Tmpl::Comment(c) => self.o.push_str(&format!("<!-- {:?} -->", c)),
                 Tmpl::Doctype => self.o.push_str("<!DOCTYPE html>"),
@@ -803,10 +912,23 @@ impl Gen {
                     };
                     out.push(Tmpl::Frag(k));
                 }
-                13 => out.push(self.comment()),
+                13 => {
+                    if self.r.chance(1, 2) {
+                        out.push(self.comment());
+                    } else {
+                        out.push(Tmpl::Unit(self.r.below(5) as u8));
+                    }
+                }
                 14 => {
                     if depth == 0 || inline {
-                        out.push(self.comment());
+                        out.push(Tmpl::Unit(self.r.below(5) as u8));
+                    } else if self.r.chance(1, 2) {
+                        let mut k = self.kids(depth - 1, false, false, mode, 3);
+                        if !k.iter().any(renders) {
+                            k.push(self.text());
+                        }
+                        let a = self.comp_attrs(mode);
+                        out.push(Tmpl::CompA(self.r.chance(1, 2), a, k));
                     } else {
                         let mut k = self.kids(depth - 1, false, false, mode, 3);
                         if !k.iter().any(renders) {
@@ -825,6 +947,49 @@ impl Gen {
                     }
                 }
             }
+        }
+        out
+    }
+
+    /// (every dashed name starts with a segment that is itself a typed attribute function, so that a macro that
+    /// mistakes the first segment for the name still compiles — and renders the wrong attribute)
+    /// attributes spread onto a component: `attr:` names of every shape (single word, one dash, several dashes,
+    /// aria-*, data-*, first segment = a typed tachys attribute function), class / style forms
+    fn comp_attrs(&mut self, mode: Mode) -> Vec<TAttr> {
+        const NAMES: &[&str] = &[
+            "id", "title", "lang", "data", "accept", "form", "data-kind", "data-a-b-c", "aria-label", "aria-describedby",
+            "accept-charset", "form-x", "title-2", "lang-x-y",
+        ];
+        let mut out: Vec<TAttr> = vec![];
+        let mut used: Vec<String> = vec![];
+        for _ in 0..1 + self.r.below(4) {
+            let dynv = mode == Mode::Mixed && self.r.chance(1, 2);
+            let a = match self.r.below(10) {
+                0..=4 => TAttr::Plain(dynv, self.r.pick(NAMES).to_string(), self.r.pick(ATTR_VALS).to_string()),
+                5 => TAttr::Flag(["hidden", "data-flag"][self.r.below(2)].to_string()),
+                6 => TAttr::Cls(dynv, self.r.pick(CLASS_VALS).to_string()),
+                7 => TAttr::StyleKV(dynv, self.r.pick(STYLE_KEYS).to_string(), self.r.pick(STYLE_KV_VALS).to_string()),
+                8 => {
+                    if mode == Mode::Mixed {
+                        TAttr::ClsToggle(self.r.pick(TOGGLES).to_string(), self.r.chance(2, 3))
+                    } else {
+                        TAttr::LitBool(["hidden", "data-on"][self.r.below(2)].to_string(), self.r.chance(1, 2))
+                    }
+                }
+                _ => TAttr::LitVal(self.r.pick(NAMES).to_string(), self.r.pick(&["2", "1.5", "'c'"]).to_string()),
+            };
+            let key = match &a {
+                TAttr::Plain(_, n, _) | TAttr::Flag(n) | TAttr::LitBool(n, _) | TAttr::LitVal(n, _) => n.clone(),
+                TAttr::Cls(..) => "class".into(),
+                TAttr::ClsToggle(n, _) => format!("class:{n}"),
+                TAttr::StyleKV(_, n, _) => format!("style:{n}"),
+                _ => "other".into(),
+            };
+            if used.contains(&key) {
+                continue;
+            }
+            used.push(key);
+            out.push(a);
         }
         out
     }
@@ -1230,6 +1395,26 @@ pub fn shapes(n_random: usize) -> Vec<Shape> {
                 &mut g.r,
             ));
         }
+    }
+    // 12. blocks of unit type at every child position among text / element siblings (5 source forms), in hole-free
+    // and in dynamic parents, at the root, in fragments and components
+    for k in 0u8..5 {
+        let u = || Tmpl::Unit(k);
+        for attrs in [vec![idp("s")], vec![dynp()]] {
+            out.push(shape_of(vec![el("div", vec![], vec![el("p", attrs.clone(), vec![tx("before "), u(), el("b", vec![], vec![tx("bold")]), tx(" after")])])], &mut g.r));
+            out.push(shape_of(vec![el("div", vec![], vec![el("p", attrs.clone(), vec![u(), tx("t"), el("i", vec![], vec![u()]), u()])])], &mut g.r));
+        }
+        out.push(shape_of(vec![u(), tx("root text"), Tmpl::Frag(vec![tx("f"), u()]), Tmpl::Comp(vec![u(), tx("c")])], &mut g.r));
+    }
+    // 13. components with spread attributes: every name shape, class: / style: forms, static and dynamic values
+    let pa = |n: &str, v: &str| TAttr::Plain(false, n.into(), v.into());
+    let pd = |n: &str| TAttr::Plain(true, n.into(), String::new());
+    for card in [false, true] {
+        out.push(shape_of(vec![Tmpl::CompA(card, vec![pa("data-kind", "info"), pa("id", "i"), pd("title")], vec![tx("c")])], &mut g.r));
+        out.push(shape_of(vec![Tmpl::CompA(card, vec![pa("accept-charset", "u"), pa("aria-label", "l"), pa("data-a-b-c", "v"), pa("title-2", "h"), pa("form-x", "f")], vec![tx("c")])], &mut g.r));
+        out.push(shape_of(vec![Tmpl::CompA(card, vec![pa("data", "d"), pa("accept", "a"), pa("form", "f"), pd("lang")], vec![el("p", vec![], vec![tx("x")])])], &mut g.r));
+        out.push(shape_of(vec![Tmpl::CompA(card, vec![TAttr::ClsToggle("on".into(), true), TAttr::StyleKV(false, "left".into(), "1px".into()), TAttr::Cls(false, "k j".into()), TAttr::StyleKV(true, "color".into(), String::new()), TAttr::Flag("hidden".into()), TAttr::BoolDyn("data-x".into(), false)], vec![tx("c")])], &mut g.r));
+        out.push(shape_of(vec![el("div", vec![], vec![el("section", vec![idp("s")], vec![Tmpl::CompA(card, vec![pa("data-kind", "q\"<&>"), TAttr::LitVal("data-n".into(), "2".into()), TAttr::LitBool("hidden".into(), false)], vec![tx("in"), Tmpl::CompA(!card, vec![pd("aria-describedby")], vec![tx("deep")])]), tx("after")])])], &mut g.r));
     }
     out
 }
